@@ -2052,3 +2052,25 @@ def _stream_position(I, a, d):
         raise Inconclusive("stream_position on %r" % (f,))
     # an O_APPEND descriptor reports offset 0 until its first write; writes then move it to the end
     return OK(f.offset)
+
+
+def op_rmdir(I, path):
+    env = I.env
+    fail_if_injected(env.act("rmdir", path, mutating=True))
+    parent, name, ino = env.vfs.walk(path, follow_last=False)
+    if ino is None:
+        raise FsErr("NotFound")
+    if ino.kind != "dir":
+        raise FsErr("NotADirectory")
+    if ino.children:
+        raise FsErr("DirectoryNotEmpty")
+    if parent is None:
+        raise FsErr("PermissionDenied")
+    del parent.children[comp_key(name)]
+    env.effect("rmdir")
+    return UNIT
+
+
+@T.path("std::fs::remove_dir")
+def _fs_remove_dir(I, a, d):
+    return wrap(I, lambda: op_rmdir(I, _p(a[0])))
